@@ -4,10 +4,13 @@ import re
 
 
 def norm(p):
-    p = re.sub(r"/+", "/", p)
-    if len(p) > 1 and p.endswith("/"):
-        p = p[:-1]
-    return p
+    """normalised path in model space: relative names are relative to $ROOT (the working directory of a
+    run that uses relative names), repeated slashes and '.' segments are dropped"""
+    if p and not p.startswith("/") and not p.startswith("$ROOT"):
+        p = "$ROOT/" + p
+    lead = "/" if p.startswith("/") else ""
+    segs = [x for x in p.split("/") if x not in ("", ".")]
+    return lead + "/".join(segs) if segs else (lead or "")
 
 
 def basename(p):
